@@ -21,7 +21,8 @@ KINDS = [('SquareBrackets', lambda t: t == (T.Punctuation, '['), lambda t: t == 
          ('Begin', kw(['BEGIN']), kw(['END']))]
 NAMES = [k[0] for k in KINDS]
 BIAS = ['(', ')', '[', ']', 'case', 'end', 'if', 'end if', 'for', 'end loop', 'begin', 'END', 'Case', 'when', 'then', 'a', 'b', ',', ' ', '\n', '/*c*/', '--c\n', ';',
-        'foreach', 'end  if', 'loop', 'x', '1', '=', 'f', 'select', 'from', "'s'"]
+        'foreach', 'end  if', 'loop', 'x', '1', '=', 'f', 'select', 'from', "'s'", 'END  LOOP', 'end\tloop', 'End\nIf', 'end \n if', 'END\t\tIF', 'end   loop',
+        '(', ')', '[', ']', 'case', 'if', 'for']
 
 
 def spec_spans(leaves):
@@ -105,7 +106,7 @@ def oracle(ctx, s):
 def run(ctx):
     rng = ctx.rng
     ins = [c['input'] for c in streams.corpus('C09')]
-    for _ in range(ctx.n(3000, 60000)):
+    for _ in range(ctx.n(8000, 100000)):
         n = rng.randint(1, 22)
         ins.append(''.join(rng.choice(BIAS) + (' ' if rng.random() < 0.7 else '') for _ in range(n)))
     ins += C02.inputs(ctx, ctx.n(800, 15000), ctx.n(300, 6000))
